@@ -65,6 +65,15 @@ def _build():
         return
     _built = True
     bp_mods = ["py_bp", "py_bp_struct"]
+    for pr, ex in [
+        ("C02", "Python decode: process_base_type (decode) proved against the bit-view invariant for unsigned and intN "
+                "accessors; sign lemmas; decode-side cursor/frame contracts of every processor class"),
+        ("C05", "decode-side cursor contract of Array/MessageProcessor.process with the sender's 16-bit prefix as a free value"),
+        ("C07", "frame clauses of all encode/decode contracts (bit-exact frame of the leaf copier for ANY integer value; "
+                "access-window clause of every processor class)"),
+        ("C14", "leaf contracts quantified over width 1..64, offset, position and all values subsume the finite grid"),
+    ]:
+        add(Check(pr, bp_mods, explanation=ex))
     add(Check("C01", bp_mods, explanation="Python encoder layout: contracts on bp.py (leaf bit copier with quantified "
               "bit-view invariant; cursor/frame/call-order contracts of every processor class against the abstract "
               "process contract)"))
